@@ -1,7 +1,7 @@
 SPECIFICATION Spec
 CONSTANTS
   EncBytes = {0, 255}
-  EncMax = 7
+  EncMax = 6
   DecBytes = {65, 61, 10}
   DecMax = 5
 INVARIANTS EncSized DecSized FmtSized EncLenIsRef DecLenIsRef
